@@ -69,8 +69,9 @@ def main(argv, chk):
                     r2 = r1
                     same = True
                 else:
-                    p1 = sh("%s %s --replay %s" % (binary, prop, rp), cwd=verif)
-                    p2 = sh("%s %s --replay %s" % (binary, prop, rp), cwd=verif)
+                    import shlex
+                    p1 = sh("%s %s --replay %s" % (binary, prop, shlex.quote(rp)), cwd=verif)
+                    p2 = sh("%s %s --replay %s" % (binary, prop, shlex.quote(rp)), cwd=verif)
                     r1, r2 = p1.returncode, p2.returncode
                     # the verdict lines carry free text with process ids, inode numbers and timestamps of the scratch
                     # trees; determinism is judged on what was found: signatures and their case counts
